@@ -56,6 +56,7 @@ func init() {
 	vexplore.Register("C15", func(tier string) []*vexplore.Scenario {
 		return []*vexplore.Scenario{
 			{Name: "sp-header-and-framing-all-protocols", Mode: "enum", Reset: kit.ResetGlobals, Body: wireAllProtocols, NeedCounters: []string{"header-exact", "frame-exact"}},
+			{Name: "two-connections-one-stalled-framing", Mode: "enum", Reset: kit.ResetGlobals, Body: stalledFraming, NeedCounters: []string{"stalled-stream-exact"}},
 		}
 	})
 }
@@ -856,6 +857,43 @@ func writeFailsThenRetransmit() {
 	}
 	kit.Count("retransmitted-intact")
 	kit.Observe("%s %d ctx=%v frames=%d", scheme, size, onCtx, len(got)/n)
+	kit.Must("Close", func() { _ = v.x.S.Close() })
+}
+
+// stalledFraming: a PUB socket has two stream connections; the first peer stops reading for a while
+// (its writes stall with a frame half way out) while further messages of other sizes go to the
+// second peer.  When the first peer reads again, what it gets is exactly the sequence of frames of
+// the messages that were queued for it - nothing a later Send did may have changed a frame that
+// was still waiting to be written.
+func stalledFraming() {
+	pickScheme()
+	sizes := [][]int{{100, 300, 7}, {5, 70000, 64}, {0, 1, 2}}[kit.ChooseFree(3)]
+	k := kinds.ByName("pub")
+	v := open(k, -1)
+	_ = v.x.S.SetOption(mangos.OptionWriteQLen, 8)
+	h1 := v.goodPeer("slow")
+	h2 := v.goodPeer("quick")
+	h1.StallWrites(true)
+	var want []byte
+	for i, n := range sizes {
+		m := pat(i+11, n)
+		want = append(want, frame(m)...)
+		c := kit.Start("Send", func() (interface{}, error) { return nil, kit.SendBytes(v.x.S, m) })
+		kit.Quiesce()
+		if !c.Done() || c.Err != nil {
+			kit.Failf("stream-send", "PUB Send of %d bytes with one slow subscriber: done=%v %s", n, c.Done(), kit.ErrName(c.Err))
+		}
+	}
+	if got := h2.Written()[8:]; !bytes.Equal(got, want) {
+		kit.Failf("stream-bytes-differ", "%s: the quick subscriber read %d bytes, the frames of sizes %v are %d bytes; first difference at %d", scheme, len(got), sizes, len(want), firstDiff(got, want))
+	}
+	h1.StallWrites(false)
+	kit.Quiesce()
+	if got := h1.Written()[8:]; !bytes.Equal(got, want) {
+		kit.Failf("stalled-stream-differs", "%s: the subscriber whose writes had stalled read %d bytes, the frames of sizes %v are %d bytes; first difference at %d (a frame that was waiting to be written was changed by a later Send)", scheme, len(got), sizes, len(want), firstDiff(got, want))
+	}
+	kit.Count("stalled-stream-exact")
+	kit.Observe("%s %v", scheme, sizes)
 	kit.Must("Close", func() { _ = v.x.S.Close() })
 }
 
